@@ -1,7 +1,7 @@
 (* Entry point of the "trav" case kind (C15): val -> val glue around Traversal.v, and the
    layer-B predicate evaluated on what the implementation produced.
    input  = (api cfg store traces fixed), cfg = (roots sel opts ties),
-            opts = (dpad ipad codec dups budget chooser nilroots plain) -- see harness/k_trav.go *)
+            opts = (dpad ipad codec dups budget chooser nilroots plain ncbw ncbd) -- see harness/k_trav.go *)
 From Coq Require Import Strings.String.
 From GoCar Require Import Bytes Varint Cid Header Frame V2Header Scan Index Val Traversal.
 
@@ -14,6 +14,11 @@ Definition in_api (i : val) : N := vN (vnth 0 i).
 Definition in_roots (i : val) : list bytes := vcids (vnth 0 (vnth 1 i)).
 Definition in_root (i : val) : bytes := hd [] (in_roots i).
 Definition in_opts (i : val) : topts := v_topts (vnth 2 (vnth 1 i)).
+(* number of registered OnNewCarBlock callbacks (0..4): Write's, Prepare/Dump's *)
+Definition small_nat (n : N) : nat :=
+  if n =? 0 then 0%nat else if n =? 1 then 1%nat else if n =? 2 then 2%nat else if n =? 3 then 3%nat else 4%nat.
+Definition in_ncb_write (i : val) : nat := small_nat (vN (vnth 8 (vnth 2 (vnth 1 i)))).
+Definition in_ncb_dump (i : val) : nat := small_nat (vN (vnth 9 (vnth 2 (vnth 1 i)))).
 Definition in_nilroots (i : val) : bool := vbool (vnth 6 (vnth 2 (vnth 1 i))).
 Definition in_ties (i : val) : bool := vbool (vnth 3 (vnth 1 i)).
 Definition in_store (i : val) : list block := vblocks (vnth 2 i).
@@ -71,7 +76,9 @@ Definition idx_obs (idx : option bytes) (store : list block) (ties : bool) : val
   end.
 
 Definition v_cb (c : cb) : val := VL [VB (cb_cid c); VB (cb_data c); VN (cb_off c); VN (cb_size c)].
-Definition v_cbs (l : list cb) : val := VL (map v_cb l).
+Definition v_ev (e : nat * cb) : val :=
+  VL [VN (N.of_nat (fst e)); VB (cb_cid (snd e)); VB (cb_data (snd e)); VN (cb_off (snd e)); VN (cb_size (snd e))].
+Definition v_evs (l : list (nat * cb)) : val := VL (map v_ev l).
 
 Definition id_order (l : list (bytes * N)) : list (bytes * N) := l.
 
@@ -98,15 +105,15 @@ Definition run_trav (i : val) : val :=
     let roots := in_roots i in
     let tw := in_trace 0 i in
     let tp := in_trace 1 i in
-    let wobs := match sc_write roots (blocks_of (t_loads tw)) (t_ok tw) with
-                | (out, cbs, ok) => VL [VB out; v_okerr ok; v_cbs cbs]
+    let wobs := match sc_write (in_ncb_write i) roots (blocks_of (t_loads tw)) (t_ok tw) with
+                | (out, evs, ok) => VL [VB out; v_okerr ok; v_evs evs]
                 end in
     match sc_prepare roots (blocks_of (t_loads tp)) (t_ok tp) with
     | None => VL [wobs; VL [VT "other"; VN 0; VL []; VL []]; VL [VT "skipped"]]
     | Some (size, hroots, cids) =>
-      match sc_dump (store_get (in_store i)) hroots cids with
-      | (out, cbs, ok) =>
-        VL [wobs; VL [VT "nil"; VN size; v_cids cids; v_cids hroots]; VL [VB out; v_okerr ok; v_cbs cbs]]
+      match sc_dump (in_ncb_dump i) (store_get (in_store i)) hroots cids with
+      | (out, evs, ok) =>
+        VL [wobs; VL [VT "nil"; VN size; v_cids cids; v_cids hroots]; VL [VB out; v_okerr ok; v_evs evs]]
       end
     end
   else
@@ -202,13 +209,32 @@ Definition check_v2 (i : val) (tr : trace) (pre : bytes) (idxv : val) (nret : op
          end
   end.
 
-Definition v_cbs_in (v : val) : list cb :=
-  map (fun x => mkcb (vB (vnth 0 x)) (vB (vnth 1 x)) (vN (vnth 2 x)) (vN (vnth 3 x))) (vL v).
+Definition v_evs_in (v : val) : list (nat * cb) :=
+  map (fun x => (small_nat (vN (vnth 0 x)),
+                 mkcb (vB (vnth 1 x)) (vB (vnth 2 x)) (vN (vnth 3 x)) (vN (vnth 4 x)))) (vL v).
 
 (* every callback's (offset,size) window of [out] is exactly that block's section *)
 Definition cbs_locate (out : bytes) (cbs : list cb) : bool :=
   forallb (fun c => bytes_eqb (take (cb_size c) (drop (cb_off c) out)) (cb_section c)
                     && (cb_off c + cb_size c <=? blen out)) cbs.
+
+(* every one of the k callbacks was told exactly the first occurrences [bs], in order, each with
+   an (offset, size) that locates that block's section in [out]; nobody else was told anything *)
+Definition callbacks_ok (k : nat) (out : bytes) (bs : list block) (evs : list (nat * cb)) : bool :=
+  forallb (fun j => let cbs := reports j evs in
+                    tv_blocks_eqb (map (fun c => (cb_cid c, cb_data c)) cbs) bs && cbs_locate out cbs)
+          (seq 0 k)
+  && forallb (fun e => Nat.ltb (fst e) k) evs.
+
+Definition cb_eqb (a b : cb) : bool :=
+  bytes_eqb (cb_cid a) (cb_cid b) && bytes_eqb (cb_data a) (cb_data b)
+  && (cb_off a =? cb_off b) && (cb_size a =? cb_size b).
+Fixpoint cbs_eqb (a b : list cb) : bool :=
+  match a, b with
+  | [], [] => true
+  | x :: a', y :: b' => cb_eqb x y && cbs_eqb a' b'
+  | _, _ => false
+  end.
 
 Definition prop_trav (i obs : val) : val :=
   let api := in_api i in
@@ -237,12 +263,12 @@ Definition prop_trav (i obs : val) : val :=
     let wobs := vnth 0 obs in let pobs := vnth 1 obs in let dobs := vnth 2 obs in
     let wout := vB (vnth 0 wobs) in
     let wok := tv_is_tag (vnth 1 wobs) "nil" in
-    let wcbs := v_cbs_in (vnth 2 wobs) in
+    let wevs := v_evs_in (vnth 2 wobs) in
+    let kw := in_ncb_write i in let kd := in_ncb_dump i in
     let bw := first_occ (blocks_of (t_loads tw)) in
     let cls := trace_class tw in
     if wok && negb (bytes_eqb wout (enc_payload roots bw)) then tv_fail "exact-once" cls
-    else if wok && negb (tv_blocks_eqb (map (fun c => (cb_cid c, cb_data c)) wcbs) bw && cbs_locate wout wcbs)
-    then tv_fail "callbacks" cls
+    else if wok && negb (callbacks_ok kw wout bw wevs) then tv_fail "callbacks" cls
     else if negb (tv_is_tag (vnth 0 pobs) "nil") then VT "ok"
     else
       let bp := first_occ (blocks_of (t_loads tp)) in
@@ -252,12 +278,14 @@ Definition prop_trav (i obs : val) : val :=
       else if tv_is_tag (vnth 0 dobs) "skipped" || negb (tv_is_tag (vnth 1 dobs) "nil") then VT "ok"
       else
         let dout := vB (vnth 0 dobs) in
-        let dcbs := v_cbs_in (vnth 2 dobs) in
+        let devs := v_evs_in (vnth 2 dobs) in
         if negb (size =? blen dout) then tv_fail "announced-size" (trace_class tp)
         else if negb (bytes_eqb dout (enc_payload roots bp)) then tv_fail "exact-once" (trace_class tp)
-        else if negb (tv_blocks_eqb (map (fun c => (cb_cid c, cb_data c)) dcbs) bp && cbs_locate dout dcbs)
-        then tv_fail "callbacks" (trace_class tp)
-        else if wok && tv_blocks_eqb bw bp && negb (bytes_eqb dout wout) then tv_fail "dump-eq-write" cls
+        else if negb (callbacks_ok kd dout bp devs) then tv_fail "callbacks" (trace_class tp)
+        else if wok && tv_blocks_eqb bw bp
+                && negb (bytes_eqb dout wout
+                         && forallb (fun j => cbs_eqb (reports j devs) (reports j wevs)) (seq 0 (Nat.min kw kd)))
+        then tv_fail "dump-eq-write" cls
         else VT "ok"
   else
     let roots := in_roots i in
